@@ -329,6 +329,66 @@ func extractC11() *lean {
 	vrconds, _ := c11Conds(c11Method(revF, "", "ValidateRevocation"))
 	l.def("validateRevocationConds", "List String", leanStrList(vrconds), vrconds)
 
+	// wiring and sibling sites (coverage audit): issuer.Revoke routing, revokeStatusList loop, buildRevocation, the constructors
+	// that inject Sign / ResolveKey / VerifySignature, the ambassador's subscriptions, the revocation store's query
+	_, iF := parseFile("vcr/issuer/issuer.go")
+	_, lsF := parseFile("vcr/verifier/leia_store.go")
+	full := func(fn *ast.FuncDecl) []string {
+		if fn == nil {
+			return []string{"MISSING"}
+		}
+		var out []string
+		ast.Inspect(fn.Body, func(n ast.Node) bool {
+			switch x := n.(type) {
+			case *ast.AssignStmt:
+				var lhs, rhs []string
+				for _, e := range x.Lhs {
+					lhs = append(lhs, c11Call(e))
+				}
+				for _, e := range x.Rhs {
+					rhs = append(rhs, c11Call(e))
+				}
+				out = append(out, strings.Join(lhs, ",")+" "+x.Tok.String()+" "+strings.Join(rhs, ","))
+			case *ast.IfStmt:
+				out = append(out, "if "+c11Call(x.Cond))
+			case *ast.BranchStmt:
+				out = append(out, x.Tok.String())
+			case *ast.RangeStmt:
+				out = append(out, "range "+c11Call(x.X))
+			case *ast.ReturnStmt:
+				var r []string
+				for _, e := range x.Results {
+					r = append(r, c11Call(e))
+				}
+				out = append(out, "return "+strings.Join(r, ","))
+			}
+			return true
+		})
+		return out
+	}
+	for _, nf := range []struct {
+		name string
+		fn   *ast.FuncDecl
+	}{
+		{"issuerRevoke", c11Method(iF, "issuer", "Revoke")},
+		{"issuerRevokeStatusList", c11Method(iF, "issuer", "revokeStatusList")},
+		{"issuerRevokeDIDNuts", c11Method(iF, "issuer", "revokeDIDNuts")},
+		{"ambassadorConfigure", c11Method(ambF, "ambassador", "Configure")},
+		{"leiaGetRevocations", c11Method(lsF, "leiaVerifierStore", "GetRevocations")},
+		{"verifierIsRevoked", c11Method(vvF, "verifier", "IsRevoked")},
+	} {
+		v := full(nf.fn)
+		l.def(nf.name, "List String", leanStrList(v), v)
+	}
+	br := c11Filter(full(c11Method(iF, "issuer", "buildRevocation")), "issuer", "BuildRevocation", "Sign(")
+	l.def("issuerBuildRevocation", "List String", leanStrList(br), br)
+	iw := c11Filter(full(c11Method(iF, "", "NewIssuer")), "statusList.")
+	l.def("issuerWiring", "List String", leanStrList(iw), iw)
+	vw := c11Filter(full(c11Method(vvF, "", "NewVerifier")), "credentialStatus.")
+	l.def("verifierWiring", "List String", leanStrList(vw), vw)
+	bs := c11Filter(full(c11Method(iF, "issuer", "buildAndSignVC")), "statusList.Entry", "CredentialStatus", "WithStatusListRevocation", "credentialID :=")
+	l.def("issuerStatusEntry", "List String", leanStrList(bs), bs)
+
 	heconds, _ := c11Conds(c11Method(ambF, "ambassador", "handleError"))
 	l.def("ambassadorHandleErrorConds", "List String", leanStrList(heconds), heconds)
 	var heswitch []string
